@@ -336,8 +336,24 @@ pub fn decode_side(t: &mut Tape, weights: &[u32; 5], long_max: u32, allow_long: 
 /// 4 sub-pixel, 5 sub-pixel flush against the far edge
 pub fn decode_crop_axis(t: &mut Tape, n: u32) -> (f64, f64, u8) {
     let nf = n as f64;
-    let class = t.weighted(&[40, 60, 70, 40, 23, 23]) as u8;
+    let class = t.weighted(&[40, 60, 70, 40, 23, 23, 40]) as u8;
     let (mut l, mut w) = match class {
+        6 => {
+            // fractional origin, integer extent (a pure sub-pixel shift when the destination has that extent)
+            if n < 2 {
+                (0.0, nf)
+            } else {
+                let k = t.range(0, n - 2);
+                let frac = match t.below(4) {
+                    0 => 0.5,
+                    1 => 0.25,
+                    2 => 1e-7,
+                    _ => t.unit().max(1e-9).min(1.0 - 1e-9),
+                };
+                let w = t.range(1, n - 1 - k);
+                (k as f64 + frac, w as f64)
+            }
+        }
         0 => (0.0, nf),
         1 => {
             let l = t.range(0, n - 1);
@@ -568,6 +584,28 @@ impl ResizeSpec {
         };
         let ext = t.pick(&p.exts);
         let use_alpha = t.chance(p.alpha_chance);
+        // pass mode: make single-pass and shift-only geometries common
+        if !matches!(crop, CropSpec::Fit(_, _)) {
+            let (cw, ch) = match crop {
+                CropSpec::Box { w, h, .. } => (w, h),
+                _ => (sw as f64, sh as f64),
+            };
+            let int_w = cw == cw.round() && cw >= 1.0 && cw <= 70000.0;
+            let int_h = ch == ch.round() && ch >= 1.0 && ch <= 70000.0;
+            match t.weighted(&[160, 36, 36, 24]) {
+                1 if int_h => dh = ch as u32,
+                2 if int_w => dw = cw as u32,
+                3 => {
+                    if int_h {
+                        dh = ch as u32
+                    }
+                    if int_w {
+                        dw = cw as u32
+                    }
+                }
+                _ => {}
+            }
+        }
         ResizeSpec {
             pt,
             sw,
@@ -592,6 +630,7 @@ pub fn crop_class_name(c: u8) -> &'static str {
         3 => "edge",
         4 => "subpix",
         5 => "subpix-edge",
+        6 => "shifted-int",
         _ => "fit",
     }
 }
